@@ -133,6 +133,9 @@ func TestVerifBoundedSetLinks(t *testing.T) {
 			}
 		}
 		for _, req := range requests {
+			if only := os.Getenv("VERIF_BOUNDED_ONLY"); only != "" && !strings.HasPrefix(only, fmt.Sprintf("current=%v requested=%v:", cur, req)) {
+				continue
+			}
 			cases++
 			wantErr := false
 			want := map[string]bool{}
